@@ -59,6 +59,8 @@ func user(key, item string) *pb.User {
 		u.Password = proto.String("secret pass:/?#%&+ü")
 	} else {
 		u.Password = proto.String(strings.Repeat("Z", 64))
+		// an entry edited from a configuration dump: the new password next to the hash of the old one
+		u.HashedPassword = proto.String(hex.EncodeToString(cipher.HashPassword([]byte("old password"), []byte(userName[key]))))
 		u.AllowPrivateIP = proto.Bool(true)
 		u.Quotas = []*pb.Quota{{Days: proto.Int32(30), Megabytes: proto.Int32(1024)}}
 	}
